@@ -55,7 +55,7 @@ struct FrameCollector : StatementVisitor
     }
     int32_t visitIterationStatement(IterationStatement* s) override
     {
-        st.add_frame(s->get_frame(), prefix + "#it" + std::to_string(counter++));
+        st.add_frame(s->get_frame(), prefix + "/it" + std::to_string(counter++));
         if (s->stat)
             s->stat->accept(this);
         return 0;
@@ -74,7 +74,7 @@ struct FrameCollector : StatementVisitor
     }
     int32_t block(BlockStatement* s)
     {
-        st.add_frame(s->get_frame(), prefix + "#b" + std::to_string(counter++));
+        st.add_frame(s->get_frame(), prefix + "/b" + std::to_string(counter++));
         for (auto& sub : *s)
             if (sub)
                 sub->accept(this);
@@ -119,7 +119,7 @@ void SymTab::build(Document& doc)
         for (auto& f : t.functions)
             add_function(f, tn + ".");
         for (auto& e : t.edges)
-            add_frame(e.select, tn + ".select#" + std::to_string(e.nr));
+            add_frame(e.select, tn + ".select/" + std::to_string(e.nr));
         for (auto& il : t.instances)
             add_frame(il.parameters, tn + ".iline.param");
     };
@@ -603,7 +603,7 @@ static void dump_instance_fields(vj::W& w, Dumper& d, instance_t& inst)
         for (auto& kv : inst.mapping) {
             std::string key = kv.first.get_name();
             auto idx = inst.parameters == frame_t() ? std::optional<uint32_t>{} : inst.parameters.get_index_of(kv.first);
-            key += idx ? "#" + std::to_string(*idx) : std::string("#?");
+            key += idx ? "|" + std::to_string(*idx) : std::string("|?");
             m[key] = d.expr(kv.second);
         }
         for (auto& kv : m)
